@@ -47,6 +47,9 @@ type spRender struct {
 	Body      int  `json:"body"`
 	ID        int  `json:"id"`
 	EnableAll bool `json:"enable_all"`
+	// SameExtra: every finding carries the same (empty) Extra text, as real detectors mostly do; the findings are then
+	// told apart by their target only
+	SameExtra bool `json:"same_extra"`
 }
 
 type spCase struct {
@@ -159,6 +162,9 @@ func spFinding(kind, det string, pos int, r *spRender) *detector.Finding {
 		Target: &detector.TargetDetails{Location: []string{fmt.Sprintf("loc/%s/%d", det, pos)}},
 		Extra:  fmt.Sprintf("%s#%d", det, pos),
 	}
+	if r != nil && r.SameExtra {
+		f.Extra = ""
+	}
 	switch kind {
 	case "noadv":
 	case "noid":
@@ -249,6 +255,11 @@ func spClassify(f *detector.Finding, r *spRender) spObsFinding {
 	}
 	o := spObsFinding{K: "?", Tag: append([]string{}, f.Detectors...)}
 	parts := strings.SplitN(f.Extra, "#", 2)
+	if r != nil && r.SameExtra && f.Extra == "" && f.Target != nil && len(f.Target.Location) == 1 {
+		if lp := strings.Split(f.Target.Location[0], "/"); len(lp) == 3 && lp[0] == "loc" {
+			parts = []string{lp[1], lp[2]}
+		}
+	}
 	if len(parts) == 2 {
 		o.Det = parts[0]
 		o.Pos, _ = strconv.Atoi(parts[1])
@@ -389,7 +400,8 @@ func init() {
 			}
 			if c.Render == nil {
 				k := idx + seed
-				c.Render = &spRender{Body: k % nBodyRender, ID: (k / nBodyRender) % nIDRender, EnableAll: (k/(nBodyRender*nIDRender))%2 == 0}
+				c.Render = &spRender{Body: k % nBodyRender, ID: (k / nBodyRender) % nIDRender, EnableAll: (k/(nBodyRender*nIDRender))%2 == 0,
+					SameExtra: (k/(nBodyRender*nIDRender*2))%2 == 1}
 			}
 			obs := spRun(&c)
 			return map[string]any{"i": idx, "render": c.Render, "obs": obs}, nil
